@@ -12,10 +12,12 @@
 //        |  ( 3 ((kind data)..) (index..) )     overlapping connections: every client first connects (TCP only) in list
 //              order; then the clients act in the given order - kind 1: TLS handshake, request `data`, wait for the answer;
 //              kind 0: send `data` in clear text, then reset
+//        |  ( 4 clients completeAfterwards )   the server is destroyed while the handshakes of the connected clients are pending
 //   obs  ::= ( 0 handlerCalls middlewareCalls clientSawHttp liveAfter )
 //        |  ( 1 encrypted (calls log status body) (calls log status body) )       TLS first, plain second
 //        |  ( 2 encrypted (calls log) (calls log) )
 //        |  ( 3 tlsClients encryptedClients liveAfter clearSawHttp handlerCalls answered )
+//        |  ( 4 clientsStillConnected clientsEncrypted handlerCalls )
 #include <QCoreApplication>
 #include <memory>
 #include <vector>
@@ -281,10 +283,44 @@ Val overlapping(const Val &c)
 }
 }
 
+namespace {
+// the server object is destroyed while handshakes are pending; afterwards the clients may try to finish them
+Val destroyedMidHandshake(const Val &c)
+{
+    int n = int(c.at(1).asInt());
+    bool completeAfter = c.at(2).asInt() != 0;
+    Log log;
+    QObject scope;
+    LogHandler handler(&log, &scope);
+    Server *server = new Server(&handler);
+    server->setSslConfiguration(tlsConfig());
+    if (!server->listen(QHostAddress::LocalHost, 0)) throw std::runtime_error("nolisten");
+    std::vector<std::unique_ptr<QSslSocket>> cls;
+    for (int i = 0; i < n; ++i) {
+        cls.emplace_back(new QSslSocket);
+        cls.back()->setPeerVerifyMode(QSslSocket::VerifyNone);
+        cls.back()->connectToHost(QHostAddress::LocalHost, server->serverPort());
+        pumpTill([&]() { return cls.back()->state() == QAbstractSocket::ConnectedState; }, 3000);
+        pumpMs(15);
+    }
+    delete server;
+    pumpMs(150);
+    int still = 0;
+    for (auto &k : cls) if (k->state() == QAbstractSocket::ConnectedState) ++still;
+    if (completeAfter) { for (auto &k : cls) k->startClientEncryption(); pumpMs(200); }
+    int enc = 0;
+    for (auto &k : cls) if (k->isEncrypted()) ++enc;
+    for (auto &k : cls) k->abort();
+    pumpMs(50);
+    return Val::List({Val::Int(4), Val::Int(still), Val::Int(enc), Val::Int(log.handler)});
+}
+}
+
 static Val run_tls(const Val &c)
 {
     int mode = int(c.at(0).asInt());
     if (mode == 3) return overlapping(c);
+    if (mode == 4) return destroyedMidHandshake(c);
     if (mode == 2) {
         QByteArray request = c.at(1).asBytes();
         Exchange a = oneShot(true, request);
